@@ -209,7 +209,7 @@ impl Driver {
 
     pub fn next_item(&mut self) -> Vec<u8> {
         self.item_tag += 1;
-        let len = self.r.range(6, 20) as usize;
+        let len = if self.r.chance(1, 5) { self.r.range(1, 5) } else { self.r.range(6, 20) } as usize;
         make_item(self.item_tag, self.r.below(4) as u8, self.r.below(5) as u8, len, 0xCD)
     }
 
@@ -316,7 +316,20 @@ impl Driver {
             5 => Op::Reuse,
             6 => {
                 let g = if self.r.chance(3, 4) { me.gen.wrapping_add(1) } else { self.r.below(4) as u8 };
-                Op::ChangeId(Id::with(me.addr, g, me.policy))
+                // mostly the same address; sometimes a move to another one (outside the peers' 1..=5)
+                let addr = if self.r.chance(1, 5) {
+                    // never onto an address somebody else is known to hold (that would be two members on one
+                    // address: the user's mistake, not foca's)
+                    let cand = *self.r.pick(&[0u16, 6, 7]);
+                    if self.node.last.state.iter().any(|m| m.id().addr == cand && m.state() != State::Down) {
+                        me.addr
+                    } else {
+                        cand
+                    }
+                } else {
+                    me.addr
+                };
+                Op::ChangeId(Id::with(addr, g, me.policy))
             }
             7..=10 => {
                 let k = self.r.range(1, 4);
